@@ -249,10 +249,18 @@ def _e2e(sh, rec):
             d = len(shape)
             w = cfg.get("width", 0)
             order = cfg["filter"][0] if cfg.get("filter") else 0
-            m = w + order + 6
             reach = (1 if cfg.get("forcing") else 0) + (2 if kind != "ns3d" else 1) + 1 + order
+            m = w + order + 6
+            # (only with a zone at least as wide as the widest ghost layer, 2: with w < 2 the support would come within the
+            # non-updated ghost cells of the ENO3 / diffusion stencils, where "conservation form" has no receiving cell)
+            tight = (ci + len(str(alt))) % 2 == 1 and w >= 2 and kind != "passive"
+            if tight:
+                # the statement's premise taken literally: the support ends EXACTLY one step's reach before the damping zone, so after the
+                # step the cells adjacent to the zone are non-zero while the zone itself still only sees exact zeros
+                m = w + reach
             label = {k: cfg[k] for k in cfg if k not in ("kind",)}
-            meta = {"sim": kind, **label, "shape": shape, "x_range": xr, "margin": m, "reach": reach, "object": sib or "primary"}
+            meta = {"sim": kind, **label, "shape": shape, "x_range": xr, "margin": m, "reach": reach, "object": sib or "primary", "tight_margin": bool(tight)}
+            rec.count("e2e_configs_tight_margin" if tight else "e2e_configs_loose_margin")
             if m - reach < w or min(shape) - 2 * m < 2:
                 rec.count("e2e_cases_discarded")
                 continue
